@@ -89,7 +89,8 @@ META = {
         "normalisers, make_id, case folding, Unicode normalisation, re-slugging), because the writer records each slug exactly "
         "as the - possibly custom, case-preserving - slug function returned it. "
         "R6 in the function that resolves '#anchor' links from the slug table, any table consulted earlier is filled - in place or "
-        "in the helper that returns it - only under docutils' explicit flag (value of nametypes.items() or nametypes[name]): "
+        "in the helper that returns it - only under docutils' explicit flag (value of nametypes.items() or nametypes[name]), and "
+        "never with an entry computed from a record of the slug table (a cached slug hit): "
         "implicit section names, which derive from the same titles as the slugs, never pre-empt a slug."
     ),
     "not_decided": (
@@ -3195,9 +3196,27 @@ def _is_nametypes(e: ast.AST) -> bool:
     return isinstance(e, ast.Attribute) and e.attr == "nametypes"
 
 
-def _explicit_only(f: FunctionInfo, store: ast.AST, table: str) -> tuple[str, str]:
+def _explicit_only(f: FunctionInfo, store: ast.AST, table: str, slug_var: str | None = None) -> tuple[str, str]:
     """('ok'|'bad', reason) for one population site of ``table``; Unsupported when the source is not docutils' name registry."""
     cfg = get_cfg(f)
+    # an entry computed from a record of the heading-slug table is, by construction, not an explicit target
+    if slug_var is not None and isinstance(store, ast.Assign):
+        from_slugs = {slug_var}
+        st_store = cfg.stmt_of(store)
+        for n in f.local_nodes():
+            if isinstance(n, ast.Assign) and n is not store and any(isinstance(x, ast.Subscript) and isinstance(x.value, ast.Name) and x.value.id == slug_var for x in ast.walk(n.value)):
+                # only a definition that every path to the store has executed (names are re-used between branches)
+                if cfg.dominates(cfg.stmt_of(n), st_store):
+                    for t in n.targets:
+                        from_slugs |= {x.id for x in ast.walk(t) if isinstance(x, ast.Name) and x.id != "_"}
+        used = _names(store.value) & from_slugs
+        if used:
+            keyx = next((t.slice for t in store.targets if isinstance(t, ast.Subscript)), None)
+            return (
+                "bad",
+                f"`{short(store, 60)}` enters a heading-slug hit ({', '.join(sorted(used))} come from `{slug_var}`) under the key `{short(keyx, 30) if keyx is not None else '?'}`: "
+                "from then on that key is answered from the pre-empting table, also for a link whose literal text is the slug of a different heading",
+            )
     loop = None
     p = parent(store)
     while p is not None and p is not f.node:
@@ -3296,7 +3315,7 @@ def r6_slug_preemption(corpus: Corpus, rep: Report, tier: str):
                         if not fills:
                             raise Unsupported(f"{f.module.site(e)}: cannot see how `{table}` is filled")
                         sites = [x for _h, x, _t in fills]
-                        verdicts = [_explicit_only(h_, x, t_) for h_, x, t_ in fills]
+                        verdicts = [_explicit_only(h_, x, t_, var if h_ is f else None) for h_, x, t_ in fills]
                         bad = [(x, v) for x, v in zip(sites, verdicts) if v[0] == "bad"]
                         if bad:
                             x, v = bad[0]
@@ -3580,24 +3599,60 @@ def mutants(corpus: Corpus):
             s3 = splice(s3, loop.iter.func.value, segment(tm.src, loop.iter.func.value.value) + ".nameids")
             out.append(Mutant("c10-preempt-nameids-items", "C10.R6", tm.rel, s3, expect="pre-empted"))
     # ---- R5: class "the slug table is searched under a many-to-one mapping of the link fragment"
-    slug_if = find_node(ap, lambda n: isinstance(n, ast.If) and isinstance(n.test, ast.Compare) and isinstance(n.test.ops[0], ast.In) and isinstance(n.test.left, ast.Name) and isinstance(n.test.comparators[0], ast.Name) and any(isinstance(x, ast.Subscript) and isinstance(x.value, ast.Name) and x.value.id == n.test.comparators[0].id for st in n.body for x in ast.walk(st)) and _stores_refid(n.body) and "slug" in n.test.comparators[0].id)
+    slug_vars = set()
+    for n_ in walk_local(ap.node):
+        if isinstance(n_, (ast.Assign, ast.AnnAssign)) and getattr(n_, "value", None) is not None and any(isinstance(x, ast.Constant) and x.value == "myst_slugs" for x in ast.walk(n_.value)):
+            tg_ = n_.targets[0] if isinstance(n_, ast.Assign) else n_.target
+            if isinstance(tg_, ast.Name):
+                slug_vars.add(tg_.id)
+
+    def _is_slug_branch(n: ast.AST) -> bool:
+        if not (isinstance(n, ast.If) and _stores_refid(n.body)):
+            return False
+        t_ = _membership_table(n.test)
+        return bool(t_) and t_ in slug_vars and any(
+            isinstance(x, ast.Assign) and isinstance(x.targets[0], ast.Tuple) and isinstance(x.value, ast.Subscript) and isinstance(x.value.value, ast.Name) and x.value.value.id == t_
+            for x in n.body
+        )
+
+    slug_if = find_node(ap, _is_slug_branch)
     if slug_if is not None:
-        kname = slug_if.test.left.id
-        tab = slug_if.test.comparators[0].id
-        kdefs = [d for d in _assigns_to(ap, kname) if isinstance(d, ast.Assign)]
-        if len(kdefs) == 1:
-            out.append(Mutant("c10-slug-lookup-normalised-fragment", "C10.R5", tm.rel, splice(tm.src, kdefs[0].value, f"nodes.fully_normalize_name({segment(tm.src, kdefs[0].value)})"), expect="as written"))
-        sub_ = find_node(ap, lambda n: isinstance(n, ast.Subscript) and isinstance(n.value, ast.Name) and n.value.id == tab and isinstance(n.slice, ast.Name) and n.slice.id == kname)
-        if sub_ is not None:
-            s4 = splice(tm.src, sub_.slice, f"{kname}.lower()")
-            s4 = splice(s4, slug_if.test.left, f"{kname}.lower()")  # the test precedes the subscript
-            out.append(Mutant("c10-slug-lookup-case-folded", "C10.R5", tm.rel, s4, expect="as written"))
-            other = find_node(ap, lambda n: isinstance(n, ast.Assign) and isinstance(n.value, ast.Call) and (dotted(n.value.func) or "").endswith("fully_normalize_name") and isinstance(n.targets[0], ast.Name))
-            if other is not None and other.lineno < slug_if.lineno:
-                on = other.targets[0].id
-                s5 = splice(tm.src, sub_.slice, on)
-                s5 = splice(s5, slug_if.test.left, on)
-                out.append(Mutant("c10-slug-lookup-reuses-normalised-name", "C10.R5", tm.rel, s5, expect="as written"))
+        tab = _membership_table(slug_if.test)
+        cmpS = next(t for t, pol in facts(slug_if.test, True) if isinstance(t, ast.Compare) and isinstance(t.comparators[0], ast.Name) and t.comparators[0].id == tab)
+        # class "a slug hit is cached in the table that pre-empts the slug lookup"
+        pp_ = parent(slug_if)
+        blk_ = next((getattr(pp_, fld) for fld in ("body", "orelse") if slug_if in getattr(pp_, fld, [])), [])
+        pre_ = [e for e in blk_[: blk_.index(slug_if)] if isinstance(e, ast.If) and _stores_refid(e.body) and _membership_table(e.test)] if blk_ else []
+        unp_ = find_node(ap, lambda n: isinstance(n, ast.Assign) and n in slug_if.body and isinstance(n.targets[0], ast.Tuple) and isinstance(n.value, ast.Subscript))
+        if pre_ and unp_ is not None:
+            e0 = pre_[0]
+            cmp0 = next(t for t, pol in facts(e0.test, True) if isinstance(t, ast.Compare))
+            names_ = [x.id for x in unp_.targets[0].elts if isinstance(x, ast.Name) and x.id != "_"]
+            ind_ = " " * unp_.col_offset
+            out.append(Mutant(
+                "c10-slug-hit-cached-as-explicit-target", "C10.R6", tm.rel,
+                splice(tm.src, unp_, segment(tm.src, unp_) + f"\n{ind_}{_membership_table(e0.test)}[{segment(tm.src, cmp0.left)}] = ({', '.join(names_)})"),
+                expect="pre-empted",
+            ))
+        if isinstance(cmpS.left, ast.Name):
+            kname = cmpS.left.id
+            kdefs = [d for d in _assigns_to(ap, kname) if isinstance(d, ast.Assign)]
+            if len(kdefs) == 1:
+                out.append(Mutant("c10-slug-lookup-normalised-fragment", "C10.R5", tm.rel, splice(tm.src, kdefs[0].value, f"nodes.fully_normalize_name({segment(tm.src, kdefs[0].value)})"), expect="as written"))
+            spots = [cmpS.left] + [n.slice for n in walk_local(ap.node) if isinstance(n, ast.Subscript) and isinstance(n.value, ast.Name) and n.value.id == tab and isinstance(n.slice, ast.Name) and n.slice.id == kname]
+            spots.sort(key=lambda n: (n.lineno, n.col_offset), reverse=True)
+
+            def all_keys(text: str) -> str:
+                out_ = tm.src
+                for sp in spots:  # from the end of the file backwards: earlier offsets stay valid
+                    out_ = splice(out_, sp, text)
+                return out_
+
+            if len(spots) > 1:
+                out.append(Mutant("c10-slug-lookup-case-folded", "C10.R5", tm.rel, all_keys(f"{kname}.lower()"), expect="as written"))
+                other = find_node(ap, lambda n: isinstance(n, ast.Assign) and isinstance(n.value, ast.Call) and (dotted(n.value.func) or "").endswith("fully_normalize_name") and isinstance(n.targets[0], ast.Name))
+                if other is not None and other.lineno < slug_if.lineno:
+                    out.append(Mutant("c10-slug-lookup-reuses-normalised-name", "C10.R5", tm.rel, all_keys(other.targets[0].id), expect="as written"))
     rm_ = corpus.mod("sphinx_ext.myst_refs")
     rd = rm_.functions.get("MystReferenceResolver.resolve_myst_ref_doc")
     if rd is not None:
